@@ -4,12 +4,13 @@ import math
 
 from harness.core import pool, tb
 
-PROOF_MODULE = ["OdeVerif.Proofs.C13", "OdeVerif.Proofs.C13b", "OdeVerif.Proofs.RefineMixed", "OdeVerif.Proofs.RefineMixedExample"]
-GENERATED = ["PyMixed"]
+PROOF_MODULE = ["OdeVerif.Proofs.C13", "OdeVerif.Proofs.C13b", "OdeVerif.Proofs.RefineMixed", "OdeVerif.Proofs.RefineMixedExample", "OdeVerif.Proofs.RefineStep"]
+GENERATED = ["PyMixed", "PyStep"]
 THEOREMS = ["OdeVerif.C13.log_starts_at_iv", "OdeVerif.C13.time_strictly_increases", "OdeVerif.C13.ends_at_simTime",
             "OdeVerif.C13.precise_spike_once", "OdeVerif.C13.aliased_spike_once", "OdeVerif.C13.aliased_spike_boundary",
             "OdeVerif.C13.enforceBounds_spec", "OdeVerif.C13.inner_logs_enforced", "OdeVerif.C13.analytic_seen_exact", "OdeVerif.C13.analytic_seen_exact_at",
-            "OdeVerif.Refine.integrateOde_refines"]
+            "OdeVerif.Refine.integrateOde_refines",
+            "OdeVerif.Refine.lookup_updateAll", "OdeVerif.Refine.mixedStep_refines", "OdeVerif.Refine.stepLocals_analytic", "OdeVerif.Refine.stepLocals_numeric", "OdeVerif.Refine.stepLocals_indep_stale"]
 LEVEL = "proof"
 
 SYSTEMS = [
@@ -113,6 +114,38 @@ def gen_numeric_case(rng, i):
         spike_times[key] = sorted({round(rng.uniform(0.001, sim_time * 1.1), 4) for _ in range(rng.choice([1, 2, 3]))})
     return {"indict": sysd, "sim_time": sim_time, "max_step": max_step, "alias": rng.random() < 0.5, "spike_times": spike_times,
             "stepper": rng.choice(["rk4", "bsimp"]), "acc": 1e-7}
+
+
+def case_param_override(case):
+    """MixedIntegrator(parameters=P1) on an analysis made with parameters P0: the analytically solved variables the numeric part sees must be the
+    exact solution under the parameters the integrator was given (exact mpmath reference of the closed analytic sub-system under P1)."""
+    import sympy
+    odetoolbox = tb.import_toolbox(standin=True)
+    tb.reset_config()
+    import pygsl.odeiv as odeiv
+    from odetoolbox.mixed_integrator import MixedIntegrator
+    from harness.core import refsol
+    indict = case["indict"]
+    res, shape_sys, shapes = odetoolbox._analysis(json.loads(json.dumps(indict)), disable_stiffness_check=True)
+    ana = [s_ for s_ in res if s_["solver"] == "analytical"]
+    num = [s_ for s_ in res if s_["solver"].startswith("numeric")]
+    if not ana or not num:
+        return {"skip": "not a mixed system"}
+    sub = shape_sys.get_sub_system([sympy.Symbol(v) for v in num[0]["state_variables"]])
+    p1 = case["run_parameters"]
+    mi = MixedIntegrator(odeiv.step_rk4, sub, shapes, analytic_solver_dict=ana[0], parameters=dict(p1),
+                         spike_times={k: list(v) for k, v in case["spike_times"].items()}, max_step_size=case["max_step"], sim_time=case["sim_time"])
+    mi.integrate_ode(h_min_lower_bound=1e-14, raise_errors=False, debug=True)
+    avars = ana[0]["state_variables"]
+    names = {v.split("__d")[0] for v in avars}
+    sub_ind = {"dynamics": [d for d in indict["dynamics"] if d["expression"].split("=")[0].strip().replace("'", "") in names], "parameters": dict(p1)}
+    ref = refsol.Reference(sub_ind)
+    out = []
+    for t in case["query_times"]:
+        got = mi.analytic_integrator.get_value(t)
+        want = ref.solve({k: v for k, v in case["spike_times"].items() if k in avars}, t)
+        out.append({"t": t, "got": {k: float(got[k]) for k in avars}, "want": {k: float(want[k]) for k in avars}})
+    return {"vars": avars, "queries": out}
 
 
 def case_numeric(case):
@@ -280,6 +313,41 @@ def run(ctx, driver):
         ctx.count("numeric_%s_alias_%s" % (case["stepper"], case["alias"]))
         ctx.note_nontrivial(json.dumps(case, sort_keys=True))
         oracle_numeric(ctx, case, res)
+    # ---- run-time parameters differing from the analysis-time ones
+    rng = ctx.rng("override")
+    ocases = []
+    for i in range(ctx.n(6, 40)):
+        sysd = json.loads(json.dumps(NUM_SYSTEMS[[0, 2, 3][i % 3]]))
+        for d in sysd["dynamics"]:
+            d.pop("upper_bound", None)
+            d.pop("lower_bound", None)
+        p1 = {k: repr(float(v) * rng.choice([0.5, 2.0, 1.0, 0.25])) for k, v in sysd["parameters"].items()}
+        avar = {0: "I", 2: "y", 3: "g__d"}[[0, 2, 3][i % 3]]
+        sim_time = rng.choice([0.03, 0.05])
+        ocases.append({"indict": sysd, "run_parameters": p1, "sim_time": sim_time, "max_step": 0.005,
+                       "spike_times": {avar: sorted({round(rng.uniform(0.001, sim_time), 4) for _ in range(2)})},
+                       "query_times": [round(rng.uniform(0.0, sim_time), 4) for _ in range(3)] + [sim_time]})
+    ores = pool.run_cases("harness.props.c13", "case_param_override", ocases, timeout=150, init="_init_worker", deadline=ctx.deadline())
+    for case, res in zip(ocases, ores):
+        ctx.evaluations += 1
+        if res.get("timeout") or res.get("skipped_budget") or res.get("skip") or res.get("harness_error"):
+            ctx.count("override_skipped")
+            if res.get("harness_error"):
+                ctx.cov.setdefault("harness_errors", []).append(res["harness_error"][:300])
+            continue
+        ctx.count("override_cases")
+        if case["run_parameters"] != case["indict"]["parameters"]:
+            ctx.note_nontrivial(json.dumps(case, sort_keys=True))
+        bad = None
+        for q in res["queries"]:
+            for k in res["vars"]:
+                if abs(q["got"][k] - q["want"][k]) > 1e-8 * max(1.0, abs(q["want"][k])):
+                    bad = {"t": q["t"], "variable": k, "observed": q["got"][k], "exact_under_given_parameters": q["want"][k]}
+                    break
+            if bad:
+                break
+        if bad:
+            ctx.fail("analytic-variable-not-exact-under-given-parameters", case, dict(bad, signature={"site": "MixedIntegrator parameters"}))
     ctx.assumptions += [
         "PARTIAL: the numerical accuracy between events, real PyGSL/GSL behaviour and floating point are outside the model; the stepper is a parameter of the theorems (GoodApply: progresses, never passes the requested end time)",
         "scripted runs replace evolve.apply by a pure function shared bit-for-bit with the Lean driver; integrate_ode itself runs unmodified",
